@@ -188,6 +188,7 @@ type c14World struct {
 	windowEnd uint64
 	buf       []byte
 	fill      byte
+	tempRef   map[types.Hash256]bool // roots referenced as temporary sectors by committed programs
 }
 
 // c14Program is one generated MDM program with its price table, duration and budget.
@@ -565,7 +566,11 @@ func newC14World(t *testing.T, h *c14Host) *c14World {
 		t.Fatal(err)
 	}
 
-	return &c14World{h: h, known: known, absent: absent, baseRoots: baseRoots, windowEnd: h.contract.Revision.WindowEnd, buf: buf, fill: fill}
+	w := &c14World{h: h, known: known, absent: absent, baseRoots: baseRoots, windowEnd: h.contract.Revision.WindowEnd, buf: buf, fill: fill, tempRef: map[types.Hash256]bool{}}
+	for _, r := range known {
+		w.tempRef[r] = true
+	}
+	return w
 }
 
 // c14Step is one instruction executed on a programExecutor: the Coq terms of the
@@ -695,7 +700,7 @@ func TestVerifC14MDM(t *testing.T) {
 	cid := h.contract.Revision.ParentID
 
 	w := newC14World(t, h)
-	known, baseRoots := w.known, w.baseRoots
+	baseRoots := w.baseRoots
 	n := verifN(400)
 	for id := 0; id < n; id++ {
 		if em.Skip(id) {
@@ -825,7 +830,7 @@ func TestVerifC14MDM(t *testing.T) {
 					em.Monitor("rejected-program-charge-differs", fmt.Sprintf("charged %v, executed non-storage usage %v", charged, nonStorage))
 				}
 				for _, ts := range pe.tempSectors {
-					if ok, _ := h.node.Volumes.HasSector(ts.Root); ok && ts.Root != known[0] && ts.Root != known[1] && ts.Root != known[2] {
+					if ok, _ := h.node.Volumes.HasSector(ts.Root); ok && !w.tempRef[ts.Root] {
 						em.Monitor("rejected-program-kept-temp-sector", ts.Root.String())
 					}
 				}
@@ -854,6 +859,9 @@ func TestVerifC14MDM(t *testing.T) {
 				em.Step("OpCommit", fmt.Sprintf("OEnd (Err EInvalid) %s 0", coqCur(bal)))
 			default:
 				em.Step("OpCommit", fmt.Sprintf("OEnd (Ok tt) %s %d", coqCur(bal), nt))
+				for _, ts := range pe.tempSectors {
+					w.tempRef[ts.Root] = true
+				}
 			}
 			budget.Rollback()
 			em.Count("end:commit")
